@@ -186,4 +186,74 @@ theorem condRate_toBM (P : Row → Bool) (rows : List Row) (hp : List Int) (c : 
   funext r x
   rw [Bool.and_assoc]
 
+/-! ### error rate (ErrorRateParity) -/
+
+/-- unit-weight misclassification rate of `BaseMetrics` rows -/
+def errRateBM (bm : List BaseMetrics.Row) : Rat :=
+  BaseMetrics.wsum (fun b => b.yt != b.yp) bm / BaseMetrics.totalW bm
+
+theorem dot_ind_erp (p : Row → Bool) (rows : List Row) (hp : List Int)
+    (hy : ∀ r ∈ rows, r.y = 0 ∨ r.y = 1) (hh : ∀ x ∈ hp, x = 0 ∨ x = 1) :
+    dot (rows.map (fun r => ind (p r))) (predOf erpUtil rows (hp.map (fun x => ind (x == 1))))
+      = (List.zipWith (fun r x => ind (p r && (r.y != x))) rows hp).sum := by
+  unfold predOf
+  induction rows generalizing hp with
+  | nil => simp
+  | cons r rs ih =>
+    cases hp with
+    | nil => simp
+    | cons x xs =>
+      have := ih xs (fun r hr => hy r (by simp [hr])) (fun y hy' => hh y (by simp [hy']))
+      simp only [List.map_cons, List.zipWith_cons_cons, dot_cons, List.sum_cons, this]
+      congr 1
+      simp only [MomentsSrc.predOf, Util.ud, erpUtil, MomentsSrc.utilDiff, MomentsSrc.erpU0, MomentsSrc.erpU1]
+      rcases hy r (by simp) with h0 | h0 <;> rcases hh x (by simp) with rfl | rfl <;> cases p r <;>
+        simp [h0, ind]
+
+theorem errRate_toBM (p : Row → Bool) (rows : List Row) (hp : List Int) (hl : hp.length = rows.length)
+    (hy : ∀ r ∈ rows, r.y = 0 ∨ r.y = 1) (hh : ∀ x ∈ hp, x = 0 ∨ x = 1) :
+    meanOn p rows (predOf erpUtil rows (hp.map (fun x => ind (x == 1)))) = errRateBM (toBM p rows hp) := by
+  unfold meanOn errRateBM
+  rw [dot_ind_erp p rows hp hy hh, wsum_toBM _ p rows hp hl, totalW_toBM p rows hp hl]
+
+/-! ### events within a control stratum -/
+
+theorem ctrlFormat_inj (c c' e : String) (h : MomentsSrc.ctrlFormat c e = MomentsSrc.ctrlFormat c' e) : c = c' := by
+  unfold MomentsSrc.ctrlFormat at h
+  have h2 := congrArg String.toList h
+  simp only [String.toList_append] at h2
+  have h3 := List.append_cancel_right (List.append_cancel_right h2)
+  have h4 := List.append_cancel_right h3
+  have h5 := List.append_cancel_left h4
+  exact String.toList_inj.mp h5
+
+theorem ctrlFormat_ne_self (c e : String) : e ≠ MomentsSrc.ctrlFormat c e := by
+  intro h
+  unfold MomentsSrc.ctrlFormat at h
+  have h2 := congrArg (fun s => s.toList.length) h
+  simp only [String.toList_append, List.length_append] at h2
+  have : (0 : Nat) < ("control=" : String).toList.length := by decide
+  omega
+
+/-- with control features, the event `control=c0,<e0>` of a moment that conditions on label `lab` selects
+    exactly the rows of stratum `c0` with that label -/
+theorem inE_stratum (k : Kind) (lab : Int) (e0 c0 : String) (r : Row)
+    (hbase : baseEvent k r = if r.y = lab then some e0 else none) :
+    inE (eventOf k) (MomentsSrc.ctrlFormat c0 e0) r = ((r.c == some c0) && (r.y == lab)) := by
+  unfold inE eventOf
+  rw [hbase]
+  cases hc : r.c with
+  | none =>
+    by_cases hy : r.y = lab
+    · simp [hy, (ctrlFormat_ne_self c0 e0)]
+    · simp [hy]
+  | some c =>
+    by_cases hy : r.y = lab
+    · simp only [hy, if_true, beq_self_eq_true, Bool.and_true]
+      by_cases hcc : c = c0
+      · subst hcc; simp
+      · have : MomentsSrc.ctrlFormat c e0 ≠ MomentsSrc.ctrlFormat c0 e0 := fun h => hcc (ctrlFormat_inj _ _ _ h)
+        simp [this, hcc]
+    · simp [hy]
+
 end Moments
